@@ -281,3 +281,11 @@ func TestVerifC09Random(t *testing.T) {
 		return vw.PropC09(c, compositeFactory, vw.RolloutOpts{MaxChildren: 4, Scale: true})
 	})
 }
+
+func TestVerifC12FixedExhaustive(t *testing.T) {
+	vs.RunExhaustive(t, "C12", 2_000_000, func(c *vs.Case) error { return vw.PropC12(c, compositeFactory, "composite", true) })
+}
+
+func TestVerifC12Random(t *testing.T) {
+	vs.Run(t, "C12", func(c *vs.Case) error { return vw.PropC12(c, compositeFactory, "composite", false) })
+}
